@@ -38,6 +38,7 @@ class Emitter:
         self.overrides = set(overrides)
         self.stubs = set(stubs)
         self.model_names = set(model_names)
+        self.opt_model_names = set((opts or {}).get('opt_model_names', ()))
         self.opts = opts or {}
         self.tnames = {}        # type key -> C type name
         self.fwd = []
@@ -258,7 +259,16 @@ class Emitter:
             kind, n = work.pop()
             if kind == 'f':
                 f = m.funcs[n]
-                if f.blocks is None or n in self.overrides: continue
+                if f.blocks is None: continue
+                if n in self.overrides:
+                    # body replaced by a model: keep the global objects it refers to (vtables ...) reachable for the model
+                    for b in f.blocks:
+                        for ins in b.instrs:
+                            for o in ins.ops:
+                                gv = o
+                                while gv is not None and gv.k == 'cexpr': gv = gv.b[0]
+                                if gv is not None and gv.k == 'global' and gv.a in m.globals: addname(gv.a)
+                    continue
                 for b in f.blocks:
                     for ins in b.instrs:
                         for o in ins.ops: scan_val(o)
@@ -367,6 +377,8 @@ class Emitter:
                 return e
             g = self.m.globals[n]
             e = '(&%s)' % self.gn(n)
+            if g.const and g.init is not None and t is not None:
+                e = '((%s)%s)' % (self.ct(PTR(g.ty)), e)
             if n.startswith('_ZTI'):
                 self.tid(n)
                 return '((%s)&verif_typeinfo[%d])' % (self.ct(t), self.tid(n))
@@ -745,13 +757,14 @@ class Emitter:
             self.complete(aty) if self.isagg(aty) else self.ct(aty)
             tmpc[0] += 1
             an = 'al_%d' % tmpc[0]
+            al = ' __attribute__((aligned(%d)))' % ins.x['align'] if ins.x.get('align') else ''
             if ins.ops:
                 cnt = ins.ops[0]
                 if cnt.k != 'int': raise IRError('dynamic alloca')
-                decls.append('%s %s[%d];' % (self.ct(aty), an, cnt.a))
+                decls.append('%s %s[%d]%s;' % (self.ct(aty), an, cnt.a, al))
                 A('%s = &%s[0];' % (r, an))
             else:
-                decls.append('%s %s;' % (self.ct(aty), an))
+                decls.append('%s %s%s;' % (self.ct(aty), an, al))
                 A('%s = &%s;' % (r, an))
             return
         if op == 'getelementptr':
@@ -968,6 +981,10 @@ class Emitter:
         for n, f in self.m.funcs.items():
             if f.blocks is not None and san(n) in self.model_names and f.linkage != 'x':
                 self.overrides.add(n)
+        self.opt_used = set()
+        for n in list(self.overrides):
+            if san(n) in self.opt_model_names and san(n) not in self.model_names:
+                self.opt_used.add(san(n))
         self.reach()
         STDT = [('BAD_ALLOC', '_ZTISt9bad_alloc'), ('LENGTH_ERROR', '_ZTISt12length_error'), ('LOGIC_ERROR', '_ZTISt11logic_error'),
                 ('OUT_OF_RANGE', '_ZTISt12out_of_range'), ('INVALID_ARGUMENT', '_ZTISt16invalid_argument'),
@@ -988,13 +1005,14 @@ class Emitter:
             protos.append(self.proto(f) + ';')
             if is_decl:
                 cn = self.gn(n)[2:]
-                if cn in self.model_names:
+                if cn in self.model_names or cn in self.opt_used:
                     uses.append(cn)
+                    mpref = 'M_' if cn in self.model_names else 'MO_'
                     # typed shim -> generic model
                     def conv(t, e):
                         if t.k == 'ptr': return '(void*)' + e
                         return e
-                    call = 'M_%s(%s)' % (cn, ', '.join(conv(t, 'a_' + san(pn)) for (t, pn) in f.params))
+                    call = '%s%s(%s)' % (mpref, cn, ', '.join(conv(t, 'a_' + san(pn)) for (t, pn) in f.params))
                     if f.ret.k == 'void': bodyl = call + ';'
                     elif f.ret.k == 'ptr': bodyl = 'return (%s)%s;' % (self.ct(f.ret), call)
                     elif self.isagg(f.ret):
@@ -1033,8 +1051,9 @@ class Emitter:
                 if not n.startswith('_ZTV') and n != '__dso_handle':
                     self.warnings.append('external global %s defined as a zero-filled object' % n)
                 continue
-            gdecls.append('%s%s %s;' % ('const ' if g.const and False else '', self.ct(g.ty), cn))
-            gdefs.append('%s %s = %s;' % (self.ct(g.ty), cn, self.init(g.init)))
+            cq = 'const ' if g.const else ''
+            gdecls.append('extern %s%s %s;' % (cq, self.ct(g.ty), cn))
+            gdefs.append('%s%s %s = %s;' % (cq, self.ct(g.ty), cn, self.init(g.init)))
         va = []
         for (callee, rt, atys) in sorted(self.va_calls, key=lambda z: z[0]):
             uses.append(callee)
@@ -1076,9 +1095,10 @@ def main():
     a = ap.parse_args()
     mod = parse_module(open(a.ll).read())
     mtxt = open(a.models).read()
-    model_names = set(re.findall(r'\bM_(\w+)\s*\(', mtxt)) | set(re.findall(r'#ifdef USES_(\w+)', mtxt))
+    opt_model_names = set(re.findall(r'\bMO_(\w+)\s*\(', mtxt))
+    model_names = (set(re.findall(r'\bM_(\w+)\s*\(', mtxt)) | set(re.findall(r'#ifdef USES_(\w+)', mtxt))) - opt_model_names
     em = Emitter(mod, [r for r in a.roots.split(',') if r], [o for o in a.override.split(',') if o],
-                 [s for s in a.stub.split(',') if s], model_names, {'store_hook': a.store_hook})
+                 [s for s in a.stub.split(',') if s], model_names, {'store_hook': a.store_hook, 'opt_model_names': opt_model_names})
     try:
         txt = em.emit()
     except IRError as e:
